@@ -10,6 +10,7 @@
 #include "dbgroup/random/zipf.hpp"
 #include "vshim_off.hpp"
 // ---- plain C++ ----
+#include <sys/resource.h>
 #include <sys/wait.h>
 #include <unistd.h>
 
@@ -452,10 +453,18 @@ CheckThrow(T mn, T mx, Stats &st)
   fflush(nullptr);
   const pid_t pid = fork();
   if (pid == 0) {
+    // the limit is on the CPU time the construction consumes (not on wall-clock time, which a loaded machine
+    // stretches): the kernel ends the child after 5 s of CPU
+    struct rlimit rl {5, 6};
+    setrlimit(RLIMIT_CPU, &rl);
     int code = 1;
     try {
       Dist d{mn, mx, 1.0};
       (void)d;
+    } catch (const std::bad_alloc &) {
+      code = 2;  // tried to build a table for the inverted range: not a rejection of the range
+    } catch (const std::length_error &) {
+      code = 2;
     } catch (const std::exception &) {
       code = 0;
     }
@@ -467,20 +476,20 @@ CheckThrow(T mn, T mx, Stats &st)
     for (;;) {
       const pid_t r = waitpid(pid, &status, WNOHANG);
       if (r == pid) break;
-      if (vs::Now() - t0 > 5.0) {
+      if (vs::Now() - t0 > 300.0) {  // backstop only
         kill(pid, SIGKILL);
         waitpid(pid, &status, 0);
-        timed_out = true;
         break;
       }
       usleep(2000);
     }
-    thrown = !timed_out && WIFEXITED(status) && WEXITSTATUS(status) == 0;
+    timed_out = WIFSIGNALED(status);
+    thrown = WIFEXITED(status) && WEXITSTATUS(status) == 0;
   }
   if (!thrown) {
     st.Add("C19", Fmt("NO-THROW:%s", kIsApprox<Dist> ? "approx" : "exact"),
            Fmt("constructing %s<%s>(min=%" PRId64 ", max=%" PRId64 ") did not throw%s", kIsApprox<Dist> ? "ApproxZipfDistribution" : "ZipfDistribution", TypeName<T>(),
-               static_cast<int64_t>(mn), static_cast<int64_t>(mx), timed_out ? " (still constructing after 5 s)" : ""),
+               static_cast<int64_t>(mn), static_cast<int64_t>(mx), timed_out ? " (still constructing after 5 s of CPU time)" : ""),
            Fmt("C19;throw;%s;%" PRId64 ";%" PRId64, TypeName<T>(), static_cast<int64_t>(mn), static_cast<int64_t>(mx)));
   }
 }
